@@ -5,7 +5,10 @@ from . import sysgen, sysinterp
 COMPARE = ["offered", "accepted", "outcome", "probes", "ctx"]
 
 
-def run_programs(ctx, n, profile, oracle, label="prog", nontrivial=None, name="correspondence:sys-model"):
+def run_programs(ctx, n, profile, oracle, label="prog", nontrivial=None, name="correspondence:sys-model", compare=None):
+    """`compare`: the observation keys this property's theorems speak about (others are not compared, so
+    that a change irrelevant to the property does not break its tie)."""
+    compare = compare or COMPARE
     rng = ctx.rng(label)
     cases = [sysgen.gen_case(rng, profile) for _ in range(n)]
     model = lean_driver("Driver/Sys.lean", cases)
@@ -22,7 +25,7 @@ def run_programs(ctx, n, profile, oracle, label="prog", nontrivial=None, name="c
         if mo.get("outcome") == "stuck":
             ctx.count("model_stuck")
             continue
-        diffs = [k for k in COMPARE if canon(real.get(k)) != canon(mo.get(k))]
+        diffs = [k for k in compare if canon(real.get(k)) != canon(mo.get(k))]
         if diffs:
             k = diffs[0]
             detail = "real and model differ in %s" % ",".join(diffs)
